@@ -217,6 +217,9 @@ const (
 	pfAllprop  = `<?xml version="1.0" encoding="utf-8"?><D:propfind xmlns:D="DAV:"><D:allprop/></D:propfind>`
 	pfProp     = `<D:propfind xmlns:D="DAV:"><D:prop><D:resourcetype/><D:getcontentlength/><D:getetag/><D:getlastmodified/></D:prop></D:propfind>`
 	pfPropname = `<D:propfind xmlns:D="DAV:"><D:propname/></D:propfind>`
+	// the same local names also asked for in a foreign namespace, before and after their DAV: twins: what is stored
+	// must still be reported (added after seeded change C01-s10)
+	pfPropTwin = `<D:propfind xmlns:D="DAV:" xmlns:X="urn:x"><D:prop><X:getcontentlength/><D:resourcetype/><D:getcontentlength/><D:getetag/><X:getetag/><D:getlastmodified/><X:resourcetype/></D:prop></D:propfind>`
 )
 
 func smallRequests() (basic, copymove []vfs.Req) {
@@ -232,7 +235,9 @@ func smallRequests() (basic, copymove []vfs.Req) {
 				vfs.Req{Method: "PROPFIND", Path: p, Depth: d, Body: pfAllprop, ContentType: "application/xml"},
 				vfs.Req{Method: "PROPFIND", Path: p, Depth: d, Body: pfProp, ContentType: `text/xml; charset="utf-8"`})
 		}
-		basic = append(basic, vfs.Req{Method: "PROPFIND", Path: p, Depth: "1", Body: pfPropname, ContentType: "application/xml"})
+		basic = append(basic, vfs.Req{Method: "PROPFIND", Path: p, Depth: "1", Body: pfPropname, ContentType: "application/xml"},
+			vfs.Req{Method: "PROPFIND", Path: p, Depth: "1", Body: pfPropTwin, ContentType: "application/xml"},
+			vfs.Req{Method: "PROPFIND", Path: p, Depth: "0", Body: pfPropTwin, ContentType: "application/xml"})
 	}
 	for _, p := range []string{"/a", "/a/a", "/b"} {
 		for _, m := range []string{"PUT", "DELETE"} {
